@@ -6,8 +6,8 @@ import (
 	"kvassverif/core"
 )
 
-var realNode = []string{"sidecar.TargetsManager (incl. store file on a real scratch directory)", "sidecar.Service (gin routes)", "sidecar.Proxy", "sidecar.Injector", "prom.ConfigManager", "scrape.Manager / Scraper / VictoriaMetrics stream parser / StatisticSeries", "target.ScrapeStatus"}
-var stubNode = []string{"Prometheus (reload callback counter + head-series value)", "scrape targets (in-memory http.RoundTripper with generated payloads and injected failures)", "coordinator (the harness issues the API calls)"}
+var realNode = []string{"the command body of cmd/kvass/sidecar.go itself (compiled as a package by the build overlay): its wiring, callback order and start path", "prom.Client (reload / head series over HTTP)", "sidecar.TargetsManager (incl. store file on a real scratch directory)", "sidecar.Service (gin routes)", "sidecar.Proxy", "sidecar.Injector", "prom.ConfigManager", "scrape.Manager / Scraper / VictoriaMetrics stream parser / StatisticSeries", "target.ScrapeStatus"}
+var stubNode = []string{"Prometheus (an HTTP stub behind http.DefaultTransport answering /-/reload and /api/v1/status/tsdb)", "the two listening sockets (the handlers are taken at http.ListenAndServe)", "scrape targets (in-memory http.RoundTripper with generated payloads and injected failures)", "coordinator (the harness issues the API calls)"}
 
 func init() {
 	core.Register(&core.Spec{
@@ -30,8 +30,8 @@ func init() {
 		ID: "C09", Engine: "node", Run: c09Run,
 		QuickRuns: 120, ThorRuns: 20000, QuickCap: 70 * time.Second, ThorCap: 12 * time.Minute,
 		Rule:    "a run draws two consecutive assignments A -> B (empty / one / many / large >64 KiB store; both states; label values needing JSON escaping; optionally an old-format targets.json as starting point), checks clean restarts, then injects store faults into the real TargetsManager's persisting of B: the store write cut at byte N by RLIMIT_FSIZE for every N of small stores (complete sub-sweep) or drawn N of large ones, the same cut applied to the write Load performs at start, the same update in a separate OS process with a cut, and that process SIGKILLed by strace on entry to the K-th syscall touching the store file for every K; after each fault a fresh start must succeed and resume A or B, and a second start must agree; a case is (kind of A) x (kind of B) x old-format?",
-		Real:    []string{"sidecar.TargetsManager (Load, UpdateTargets, store file on a real directory)", "kernel file system", "a separate OS process for the child variant"},
-		Stub:    []string{"no update callbacks are registered (the injector's own file is not part of this property)"},
+		Real:    []string{"sidecar.TargetsManager (Load, UpdateTargets, store file on a real directory)", "cmd/kvass/sidecar.go command body (clean restarts)", "kernel file system", "a separate OS process for the child variant"},
+		Stub:    []string{"fault sweeps work on the TargetsManager alone (no update callbacks: the injector's own file is not part of this property); the clean-restart clause is repeated on the whole `kvass sidecar` command body (real start path, API answers)"},
 		Assume:  []string{"no power-loss model: kill, partial write and full disk are injected at the syscall boundary; un-synced page loss is not", "the idle-since instant of B is compared up to the real-time difference between the faulted process and its fault-free twin"},
 		Workers: 16, SelfCheckRuns: 6,
 	})
